@@ -30,6 +30,14 @@ CHECKS = {
    text="Locator/LocatorHeights/GetHeaders are operators of Chain.tla; TLC checks LocatorShape and GetHeadersIsNextSegment on every reachable store; for every distinct store the locator and the getheaders answers for every locator set of size<=2 (both orders) and the full set x every stop (zero, every id, unknown) are compared with LatestHeaderLocator / LocateHeaders / LocateHeadersGetHeaders on the real stack; a 4100-header chain with stale branches exercises the 2000 cap and the doubling steps against the same operators.",
    technique="explicit TLA+ spec (Chain.tla: Locator, GetHeaders) checked by TLC; complete answer tables replayed against the real service; long-chain vectors validated by TLC",
    note=TB + " Empty locators are not asserted (protocol meaning is ambiguous). Stop hash = genesis is a listed known finding."),
+ "C06": dict(cat="model_checking", ref="DESIGN.md §5 C06",
+   text="Sync.tla (legacy SyncManager: one action per handled message, per-peer queues, sync-peer choice, headers-first mode, checkpoint cursor, duplicate-getheaders filter, ban list) and SyncExp.tla (experimental Peer: checkpoint cursor, sendheaders mode) over the Chain.tla store; TLC checks StoreValid, BannedStayOut and ConvergesOrListed (a terminal state behind the best chain offered must be explained by a listed single-sync-peer limitation) on every state of each scenario family; every lock-step behaviour TLC enumerates (connect with any best block, reply, announce by inv or headers, go away, reconnect; sampled) is replayed on the real p2p server / real experimental Peer with scripted protocol nodes over loopback TCP and the real SQL stack; at the end all nodes answer until nothing is asked and the store is compared with the best chain offered.",
+   technique="explicit TLA+ specs (Sync.tla, SyncExp.tla) model-checked by TLC; TLC-enumerated peer behaviours replayed into the real server/engine with scripted nodes; outcome compared with the specification's terminal state",
+   note=TB + " Lock-step schedules only (free interleavings are on the specification); the random sync-peer choice among several candidates is not replayed; stall timers are modelled as the node going away."),
+ "C07": dict(cat="model_checking", ref="DESIGN.md §5 C07",
+   text="Same specifications and rigs as C06; TLC checks ForbiddenNeverStoredS / XForbiddenNeverStored and BannedStayOut on every state; in every replayed behaviour, after each step the scripted node that delivered a forbidden header or a header contradicting a checkpoint must be disconnected (and its host refused afterwards by the legacy server), nothing further may be requested from it, forbidden blocks must be absent from the store, and a matching checkpoint header must be followed by the request for the next checkpoint / the unbounded request.",
+   technique="explicit TLA+ specs (Sync.tla, SyncExp.tla) model-checked by TLC; TLC-enumerated misbehaving-peer behaviours replayed into the real server/engine; per-step containment oracle",
+   note=TB + " Positions of the offending header within a batch are those the scenario families produce (caps 2-4, forks at heights 0-2)."),
  "C05": dict(cat="fault_enumeration", ref="DESIGN.md §5 C05",
    text="ChainSteps.tla models Add at repository-call grain (three separate write transactions); TLC checks LValid, AckedNeverLost, NotStuck, RedeliveryRecovers (store after restart + redelivery = store of the uninterrupted run) and RestartChangesNothing on every state for every history x every write boundary as kill point or failing write; every such behaviour TLC enumerates (fault, restart, full redelivery) is replayed on the real stack with a decorator around repository.Headers that kills or fails exactly that write, database.Init reopens the same file, and answers + full table are compared after every step.",
    technique="explicit TLA+ spec (ChainSteps.tla) model-checked by TLC; TLC-enumerated fault/restart/redelivery behaviours replayed into the real stack through a fault-injecting repository decorator",
